@@ -140,9 +140,15 @@ def rand_result(rng):
             if rng.random() < 0.2:
                 vals[4] = float("inf")
             res[name] = MeanResult(*vals)
-        else:
+        elif rng.random() < 0.5:
             res[name] = {"control": rand_float(rng), "treatment": rng.randint(-5, 5), "note": rng.choice(NAMES), "pvalue": rng.random(),
                          "rel_effect_size": rng.random() - 0.5}
+        else:
+            # a user-defined result with its own fields: any subset of a pool, so that rows may have equally many keys with
+            # different names, keys in another order, or a superset / subset of another row's keys
+            pool = ["pvalue", "statistic", "auc", "control", "treatment", "power", "u_stat"]
+            ks = rng.sample(pool, rng.choice([2, 3, 3, 4]))
+            res[name] = {k: (rng.random() if k != "u_stat" else rng.randint(0, 99)) for k in ks}
     return tt.experiment.ExperimentResult(res)
 
 
@@ -207,6 +213,19 @@ VIEWS_HEADER = ("From Coq Require Import ZArith String Ascii List Bool.\nFrom TT
                 "Definition cols (rows : list (list (string * unit))) : string := join (String (ascii_of_nat 10) EmptyString) (fst (view rows)).\n")
 
 
+def rand_custom_result(rng):
+    """results of user-defined metrics only: rows with equally many keys under different names, permuted keys, sub- and
+    supersets of one another"""
+    import tea_tasting as tt
+    pool = ["pvalue", "statistic", "auc", "control", "treatment", "power", "u_stat"]
+    size = rng.choice([2, 3, 3, 4])
+    res = {}
+    for name in rng.sample(NAMES, rng.randint(2, 4)):
+        ks = rng.sample(pool, size if rng.random() < 0.7 else rng.choice([1, 2, 5]))
+        res[name] = {k: (rng.random() if k != "u_stat" else rng.randint(0, 99)) for k in ks}
+    return tt.experiment.ExperimentResult(res)
+
+
 def _views(ctx):
     """columns and null pattern of to_arrow / to_pandas / to_polars = model/Views.view on the key lists of to_dicts()"""
     import tea_tasting as tt
@@ -215,10 +234,12 @@ def _views(ctx):
         return
     cases, terms, expect = [], [], []
     for i in range(ctx.n(40, 800)):
-        er = rand_result(ctx.rng)
+        er = rand_result(ctx.rng) if i % 2 == 0 else rand_custom_result(ctx.rng)
         obj = er if ctx.rng.random() < 0.6 else tt.experiment.ExperimentResults({(0, 1): er, ("a", "b"): rand_result(ctx.rng)})
         dicts = obj.to_dicts()
         keylists = [list(d) for d in dicts]
+        for f in view_fails(obj, dicts):
+            ctx.violations.append({"what": f.split(":")[0], "detail": f, "input": {"dicts": repr(dicts)[:1500]}})
         rt = "[" + "; ".join("[" + "; ".join(f"({H.slit(k)}, tt)" for k in ks) + "]" for ks in keylists) + "]"
         try:
             ar = obj.to_arrow()
